@@ -1,12 +1,11 @@
 SPECIFICATION Spec
-INVARIANT WitNoDeep
+INVARIANT WitNoWindow
 CONSTANTS
   WB = 2
-  CUTW = 2
-  BLOCKT = 2
-  PIVRULE = "first"
-  BaseCase <- NaiveBase
+  K = 1
+  NT = 2
+  SB = 1
   SHAPES <- ShapesQuick
   BIG <- BigQuick
-  PATS = 300
+  PATS = 200
 CHECK_DEADLOCK FALSE
